@@ -1915,3 +1915,17 @@ mod test {
         assert_eq!(log_msgs.len(), 2);
     }
 }
+
+#[cfg(a2lfile_verif)]
+pub(crate) mod verif {
+    use crate::{CompuMethod, DataType};
+    pub(crate) fn calc_compu_method_limits(cm: Option<&CompuMethod>, dt: DataType) -> (f64, f64) {
+        super::calc_compu_method_limits(cm, dt)
+    }
+    pub(crate) fn check_limits_valid(existing: (f64, f64), calculated: (f64, f64)) -> bool {
+        super::check_limits_valid(existing, calculated)
+    }
+    pub(crate) fn get_datatype_limits(dt: DataType) -> (f64, f64) {
+        super::get_datatype_limits(dt)
+    }
+}
